@@ -25,7 +25,7 @@ CHECKS = {
     "C02": dict(
         engine="E1+E3",
         category="exploration",
-        text="Generated histories with several concurrently in-flight operations carrying unique scripted results, completions posted in generated permutations/batches with consumer polls in between; reference model decides for every poll whether Pending or Ready(v) is legal and what v must be. One case in five is a multi-completion case: per-operation FIFO of consumed completions; multishot results in kernel order, once, end exactly once; zero-copy sends resolve only after the notification with the first completion's value; Ring::pollable of a second ring supplies a multishot operation whose results are indistinguishable from each other (none may be lost or merged).",
+        text="Generated histories with several concurrently in-flight operations carrying unique scripted results, completions posted in generated permutations/batches with consumer polls in between; reference model decides for every poll whether Pending or Ready(v) is legal and what v must be. One case in five is a multi-completion case: per-operation FIFO of consumed completions; multishot results in kernel order, once, end exactly once; zero-copy sends resolve only after the notification with the first completion's value; Ring::pollable of a second ring supplies a multishot operation whose results are indistinguishable from each other (none may be lost or merged). A kernel adversary overwrites every free completion slot the moment a10 publishes a new head (a result taken from a slot given back too early is a wrong result).",
         design_ref="5/C02",
         technique="model-based property testing (reference model of per-operation result delivery)",
     ),
@@ -39,7 +39,7 @@ CHECKS = {
     "C04": dict(
         engine="E1+E3 (+E4 for the scheduled sub-check)",
         category="exploration",
-        text="Generated submission histories over 1..8-entry rings with generated 32-bit start counters (incl. 2^32-k) and deliberate over-subscription; every SQE the simulated kernel consumes is compared (multiset, order, all 64 bytes against an independently written encoding) with what a10 accepted; queue-full must wait, room must accept. C04b (2 of 5 cases): 2..4 submitter threads into a nearly full queue of a default, kernel-thread or single-issuer ring while a poller consumes (or drops the Ring), under the baton scheduler with choice tapes or PCT priority schedules: every consumed entry is a whole submission of exactly one operation, none twice, none missing.",
+        text="Generated submission histories over 1..8-entry rings with generated 32-bit start counters (incl. 2^32-k) and deliberate over-subscription; every SQE the simulated kernel consumes is compared (multiset, order, all 64 bytes against an independently written encoding) with what a10 accepted; queue-full must wait, room must accept. C04b (2 of 5 cases): 2..4 submitter threads into a nearly full queue of a default, kernel-thread or single-issuer ring while a poller consumes (or drops the Ring), under the baton scheduler with choice tapes or PCT priority schedules: every consumed entry is a whole submission of exactly one operation, none twice, none missing. The cancellation entry a drop publishes is compared byte for byte (every field it does not use must be zero).",
         design_ref="5/C04",
         technique="model-based property testing (proptest histories) against a simulated io_uring kernel; multiset/byte-exact SQE oracle",
     ),
@@ -73,7 +73,7 @@ CHECKS.update({
     "C14": dict(
         engine="E5 pure-function PBT",
         category="exploration",
-        text="Every provided Buf/BufMut/BufSlice/BufMutSlice implementation and wrapper (incl. arrays/tuples of arity 1..8 with mixed element types and nested LimitedBuf) over generated contents, capacities, fill levels, n and boundary-heavy limits in the whole usize range; laws checked against a model that knows each buffer's allocation bounds. One case in eleven: a ReadBuf (pool buffer filled by the simulated kernel), bare and under a LimitedBuf, at generated fill levels after truncate / set_init / extend_from_slice.",
+        text="Every provided Buf/BufMut/BufSlice/BufMutSlice implementation and wrapper (incl. arrays/tuples of arity 1..8 with mixed element types and nested LimitedBuf) over generated contents, capacities, fill levels, n and boundary-heavy limits in the whole usize range; laws checked against a model that knows each buffer's allocation bounds. One case in eleven: a ReadBuf (pool buffer filled by the simulated kernel), bare and under a LimitedBuf, at generated fill levels after truncate / set_init / extend_from_slice. A limited read into a pool ReadBuf that has no buffer yet must not let more than the limit arrive.",
         design_ref="5/C14",
         technique="property-based testing of trait laws against an allocation-bounds model (proptest)",
         note="No ring involved except for the ReadBuf cases (simulated kernel fills the pool buffer). Trusted: the harness' own bookkeeping of allocation bounds; SkipBuf/ReadNBuf (crate-private) are covered through C10, ReadBuf's editing API by C15.",
@@ -102,7 +102,7 @@ CHECKS.update({
     "C15": dict(
         engine="E1 + pool driver",
         category="exploration",
-        text="A pool buffer filled by the simulated kernel (slot varied by earlier reads, pool memory canaried) undergoes a generated edit sequence (truncate, clear, remove with every range form incl. overflowing bounds, set_len, extend_from_slice, spare_capacity_mut writes, re-reads) compared call by call with a capacity-limited byte vector; canaries of all other slots and the released slot identity are checked.",
+        text="A pool buffer filled by the simulated kernel (slot varied by earlier reads, pool memory canaried) undergoes a generated edit sequence (truncate, clear, remove with every range form incl. overflowing bounds, set_len, extend_from_slice, spare_capacity_mut writes, re-reads) compared call by call with a capacity-limited byte vector; canaries of all other slots and the released slot identity are checked. Every other case gives the edited buffer back by dropping it instead of calling release().",
         design_ref="5/C15",
         technique="differential property-based testing against a reference byte-vector model with canaries",
     ),
@@ -132,7 +132,7 @@ CHECKS.update({
     "C18": dict(
         engine="E1+E2+E8 fault enumeration driver",
         category="fault_enumeration",
-        text="Generated configurations crossed with the complete refusal-point list (setup errnos, each required feature bit missing singly and in pairs, mmap #1-#3 failing, madvise after each mmap failing, REGISTER_FILES2 failing, no fault): on Err nothing is left behind (descriptor closed once, each mapping unmapped once, no heap block, descriptor table unchanged) and the error is the injected one; on Ok the io_uring_params encode exactly the request and the ring works with exactly the granted queue sizes.",
+        text="Generated configurations crossed with the complete refusal-point list (setup errnos, each required feature bit missing singly and in pairs, mmap #1-#3 failing, madvise after each mmap failing, REGISTER_FILES2 failing, no fault): on Err nothing is left behind (descriptor closed once, each mapping unmapped once, no heap block, descriptor table unchanged) and the error is the injected one; on Ok the io_uring_params encode exactly the request and the ring works with exactly the granted queue sizes. The direct-descriptor registration is refused with seven different errnos (EINTR and ETIME among them).",
         design_ref="5/C18",
         technique="fault-injection enumeration (complete refusal list per generated configuration) with resource-ledger oracles",
     ),
